@@ -1191,6 +1191,9 @@ class Alamouti(MimoBase):
         --------
         encode
         """
+        # The negation below must be computed with complex numbers: for an
+        # unsigned integer array `-x` wraps around.
+        transmit_data = np.asarray(transmit_data, dtype=complex)
         Ns = transmit_data.size
         encoded_data = np.empty((2, Ns), dtype=complex)
         for n in range(0, Ns, 2):
@@ -1244,6 +1247,8 @@ class Alamouti(MimoBase):
         --------
         decode
         """
+        # `-channel` below must not wrap around for unsigned integer arrays
+        channel = np.asarray(channel, dtype=complex)
         Ns = received_data.shape[1]
         # Number of Alamouti codewords
         number_of_blocks = Ns // 2
